@@ -62,12 +62,14 @@ def gridSearch (env : Env) (f : Option Filter) (step : Int) : Nat → Int → Ex
   | 0, _ => .error .diverged
   | n + 1, g => if env.allows f g then .ok g else gridSearch env f step n (g + step)
 
+/-- `new_dt = self._next` or, for an interval without start, `dt.add(microseconds=1)` -/
+def intervalAnchor (start : Option Int) (dt : Int) : Int := start.getD (dt + NS_PER_US)
+
 /-- `IntervalProducer.get_next`; `start = none` anchors the grid one microsecond after `dt` -/
 def intervalNext (env : Env) (start : Option Int) (step : Int) (f : Option Filter) (dt : Int) :
     Except Err Int :=
   if step ≤ 0 then .error .valueError else   -- rejected by `get_pos_timedelta_secs`
-  let a := match start with | some a => a | none => dt + NS_PER_US
-  gridSearch env f step env.intervalFuel (gridAfter a step dt)
+  gridSearch env f step env.intervalFuel (gridAfter (intervalAnchor start dt) step dt)
 
 /-- bound selected by the DST policy for `earliest` / `latest` on the local date of `n` -/
 def boundFor (env : Env) (r : TimeRep) (n dt : Int) : Except Err (Option Int) :=
